@@ -203,7 +203,14 @@ pub fn c18_cli_case_named(ctx: &Ctx, exe: &PathBuf, input: &[u8], kind: &str, na
                     Err(e) => {
                         let err = String::from_utf8_lossy(&r.stderr);
                         // the documented capacity assertions and the RISC-V print limitation
-                        if pipeline::is_capacity_panic(&err) || (backend == "rv64" && err.contains("not implemented in RISC-V backend")) {
+                        // the capacity assertion is tolerated only for programs near the capacity
+                        let arch = if backend == "rv64" { pipeline::Arch::Rv } else { pipeline::Arch::X86 };
+                        let width = std::str::from_utf8(input)
+                            .ok()
+                            .and_then(|t| pipeline::front(t).ok())
+                            .map_or(0, |c| crate::tc_axcut::max_env_linear(&c.linear));
+                        let capacity = pipeline::is_capacity_panic(&err) && width >= pipeline::capacity_margin(arch);
+                        if capacity || (backend == "rv64" && err.contains("not implemented in RISC-V backend")) {
                             classes.push("cli: capacity".into());
                             continue;
                         }
